@@ -257,6 +257,9 @@ def run_shard(spec):
             nested_paths = [p for p, nd in _sets(tree) if nd.explicit and not nd.via_attrpath and len(p) <= 2]
             if nested_paths:
                 targets.append("nested")
+            dotted_paths = [p for p, nd in _sets(tree) if nd.via_attrpath and not nd.explicit and len(p) <= 2]
+            if dotted_paths:
+                targets.append("nested-dotted")
             bare = dv.wrappers in ([], ["let"] * len(dv.wrappers))
             if bare and isinstance(getattr(src, "expr", None), AttributeSet) or (bare and dv.layers):
                 targets.append("scope")
@@ -266,8 +269,9 @@ def run_shard(spec):
                 if tkind == "document":
                     mapping = src
                     view = plain
-                elif tkind == "nested":
-                    base_path = rng.choice(nested_paths)
+                elif tkind in ("nested", "nested-dotted"):
+                    # nested-dotted: a set that exists only through dotted bindings (`a.b = 1;`)
+                    base_path = rng.choice(nested_paths if tkind == "nested" else dotted_paths)
                     mapping = src
                     for seg in base_path:
                         mapping = mapping[seg]
